@@ -207,7 +207,7 @@ Definition step_item (s : st) (ln : Z) (it : lexitem) : st :=
              s_errors := (s_errors s ++ [mkd DInvalidating "Invalid atom definition" ln])%list; s_stop := s_stop s |}
       end
   | LAnisou serial factors =>
-      let '(cur, _) := set_atf_chains_rev (s_cur s) serial factors in
+      let '(cur, _) := set_atf_chains_rev (s_cur s) (serial + s_atom_add s) factors in
       {| s_id := s_id s; s_remarks := s_remarks s; s_cell := s_cell s; s_sym := s_sym s; s_models := s_models s; s_cur_num := s_cur_num s;
          s_cur := cur; s_dbrefs := s_dbrefs s; s_mods := s_mods s; s_bonds := s_bonds s; s_scale := s_scale s; s_origx := s_origx s;
          s_mtrix := s_mtrix s; s_last_res := s_last_res s; s_res_add := s_res_add s; s_last_atom := s_last_atom s; s_atom_add := s_atom_add s;
@@ -365,7 +365,7 @@ Definition reshuffle_residue (r : residue) : residue :=
     | Some idx =>
         match nth_error (r_confs r) idx, remove_at idx (r_confs r) with
         | Some sh, Some rest =>
-            let shared := map (fun a => set_occ a (fdiv_count (a_occ a) (Z.of_nat count))) (c_atoms sh) in
+            let shared := map (fun a => set_occ a (fdiv_count (a_occ a) (Z.of_nat count - 1))) (c_atoms sh) in
             with_confs r (map (fun c => with_atoms c (c_atoms c ++ shared)) rest)
         | _, _ => r
         end
